@@ -19,6 +19,7 @@ def run(ctx):
     ctx.model("MC_KdqTree", "MC_KdqTree.cfg")
     ctx.model("MC_NNSP", "MC_NNSP.cfg")
     ctx.model("MC_HDM", "MC_HDM_db3.cfg")
+    ctx.model("MC_Perm", "MC_Perm.cfg")       # every permutation of small batches: distances, trees, partitions unchanged
     per = 5 if q else 40
     full, dist_only = [], []
     for fam in ("HDDDM", "CDBD", "KdqTreeBatch", "NNDVI"):
